@@ -121,59 +121,58 @@ func searchFieldId(p *binary.BinaryProtocol, id proto.FieldNumber, messageLen in
 // packed: if idx is found, return the element[V] value start position, otherwise return the end of p.Buf
 // unpacked: if idx is found, return the element[TLV] tag position, otherwise return the end of p.Buf
 func searchIndex(p *binary.BinaryProtocol, idx int, elementWireType proto.WireType, isPacked bool, fieldNumber proto.FieldNumber) (int, error) {
-	// packed list
-	cnt := 0
-	result := p.Read
+	if idx < 0 {
+		return p.Read, errNode(meta.ErrInvalidParam, fmt.Sprintf("invalid index %d", idx), nil)
+	}
+	// packed list: p.Read points to the length of the list
 	if isPacked {
-		// read length
 		length, err := p.ReadLength()
 		if err != nil {
 			return 0, err
 		}
-		// read list
-		start := p.Read
-		for p.Read < start+length && cnt < idx {
+		end := p.Read + length
+		if end > len(p.Buf) {
+			return 0, errNode(meta.ErrRead, "searchIndex: packed list exceeds buffer.", nil)
+		}
+		for cnt := 0; cnt < idx && p.Read < end; cnt++ {
 			if err := p.Skip(elementWireType, false); err != nil {
 				return 0, errNode(meta.ErrRead, "searchIndex: skip packed list element error.", err)
 			}
-			cnt++
 		}
-		result = p.Read
-	} else {
-		// normal Type : [tag][(length)][value][tag][(length)][value][tag][(length)][value]....
-		for p.Read < len(p.Buf) && cnt < idx {
-			// don't move p.Read and judge whether readList completely
-			if err := p.Skip(elementWireType, false); err != nil {
-				return 0, errNode(meta.ErrRead, "searchIndex: skip unpacked list element error.", err)
-			}
-			cnt++
-			if p.Read < len(p.Buf) {
-				// don't move p.Read and judge whether readList completely
-				elementFieldNumber, _, n, err := p.ConsumeTagWithoutMove()
-				if err != nil {
-					return 0, err
-				}
-				if elementFieldNumber != fieldNumber {
-					break
-				}
-				if cnt < idx {
-					p.Read += n
-				}
-				result = p.Read + n
-			}
+		if p.Read >= end {
+			return p.Read, errNotFound
 		}
-
+		return p.Read, nil
 	}
 
-	if cnt < idx {
-		return p.Read, errNotFound
+	// unpacked list: [tag][(length)][value][tag][(length)][value]...
+	// the caller has consumed the first element's tag: step back onto it, so that every element is handled alike
+	p.Read -= protowire.SizeVarint(uint64(fieldNumber)<<3 | uint64(proto.BytesType))
+	if p.Read < 0 {
+		return 0, errNode(meta.ErrRead, "searchIndex: invalid list position.", nil)
 	}
-
-	return result, nil
+	for cnt := 0; ; cnt++ {
+		if p.Read >= len(p.Buf) {
+			return p.Read, errNotFound
+		}
+		elementFieldNumber, _, n, err := p.ConsumeTagWithoutMove()
+		if err != nil {
+			return 0, err
+		}
+		if elementFieldNumber != fieldNumber {
+			return p.Read, errNotFound
+		}
+		if cnt == idx {
+			// p.Read stays on the element's tag; the value starts after it
+			return p.Read + n, nil
+		}
+		p.Read += n
+		if err := p.Skip(elementWireType, false); err != nil {
+			return 0, errNode(meta.ErrRead, "searchIndex: skip unpacked list element error.", err)
+		}
+	}
 }
 
-// searchIntKey in MAP Node
-// if key is found, return the value tag position, otherwise return the end of p.Buf
 func searchIntKey(p *binary.BinaryProtocol, key int, keyType proto.Type, mapFieldNumber proto.FieldNumber) (int, error) {
 	exist := false
 	start := p.Read
